@@ -84,3 +84,11 @@ PROPS["C05"] = {
             "non-canonical index spellings) against registries with 0-3 SPSSODescriptors x 0-4 endpoints (bindings POST/Redirect/Artifact/unknown, duplicate "
             "and negative indices, isDefault none/true/false, duplicate locations), registry errors; GET-deflate and POST; IdP-initiated launches through ServeIDPInitiated",
 }
+
+PROPS["C18"] = {
+    "modules": ["SamlVerif.Props.C18"],
+    "trusted_base": SP_TB + ["the validator reads time.Now(), not the library clock: freshness cases keep a 5 s guard band around the boundary"],
+    "assumptions": ["inflate(deflate b) = b for the encodings-agree theorem"],
+    "rule": "both encodings x 4 entry points x signature transformations (valid, none, untrusted key, edited after signing, relocated, duplicated, other trusted-looking key) "
+            "x decoding failures (base64, XML, round-trip validator, no root, other root element, bad deflate) x {correct, wrong, near-miss, absent} Destination/Issuer/Status x IssueInstant around the boundary",
+}
